@@ -201,6 +201,7 @@ func (p *path) schedule() {
 		} else {
 			k = p.choose(len(run))
 			p.envChoices++
+			p.envDeviations++ // every schedule is an environment choice
 			if run[0] == cur && k != 0 {
 				w.preemptions++
 			}
